@@ -540,6 +540,18 @@ func (d *cfgDynamic) toConfig(opts *options) (cfg *Config, err error) {
 	return
 }
 
+// final evaluates d down to a value that is no reference any more.
+func (d *cfgDynamic) final(opts *options) (v value, err error) {
+	d.withValue(&err, opts, func(x value) {
+		if next, ok := x.(*cfgDynamic); ok {
+			v, err = next.final(opts)
+		} else {
+			v = x
+		}
+	})
+	return
+}
+
 func (d *cfgDynamic) withValue(err *error, opts *options, fn func(value)) {
 	// references resolved while evaluating d are active (cycle detection) only
 	// until d has been evaluated: using one of them again afterwards is fine
